@@ -24,7 +24,7 @@
    preceding level-l heading row on the page shows v_l(r)"), which check_c05 evaluates on the implementation. *)
 From Coq Require Import Ascii String.
 From Coq Require Import List NArith ZArith QArith Bool Arith.
-From V Require Import Str Num Tok Items Doc Encode Paginate Pipeline HeadingProofs StateProofs DividerProofs.
+From V Require Import Str Num Tok Items Doc Encode Paginate Pipeline Checks HeadingProofs StateProofs DividerProofs.
 Import ListNotations.
 Local Open Scope string_scope.
 Local Open Scope list_scope.
@@ -68,6 +68,14 @@ Theorem C05_divider_cost : forall widths fonts sizes i cols removed cw pb sl row
   rm_pb m = 0%Z /\ rm_sl m = 0%Z /\ rm_total m = rm_data m.
 Proof. exact divider_row_costs_its_lines. Qed.
 Print Assumptions C05_divider_cost.
+
+(* hence the greedy page assignment never closes a page before an all-divider row that still fits: the predicate's clause 8
+   (c05_divider_cost, evaluated on the implementation's pages) is false on the model's own pages *)
+Theorem C05_divider_loop : forall avail np f keys ms t page cur,
+  (forall i m, nth_error ms i = Some m -> all_divider_row f keys (t + i) = true -> rm_total m = rm_data m) ->
+  c05_divider_cost avail np f keys ms (assign_loop avail np ms false page cur) t page cur = false.
+Proof. exact loop_never_charges_dividers. Qed.
+Print Assumptions C05_divider_loop.
 
 Theorem C05_followed : forall f keys start len,
   (Forall (fun b => 1 <= fst b < len) (boundaries f keys start len) \/ boundaries f keys start len = [])
